@@ -305,7 +305,11 @@ def load_cases(path):
         for line in f:
             line = line.strip()
             if line:
-                cases.append(json.loads(line))
+                try:
+                    cases.append(json.loads(line))
+                except ValueError:
+                    # a driver that died in the middle of a line: the failure itself is reported by the caller
+                    continue
     return cases
 
 
